@@ -428,6 +428,14 @@ struct StrPool {
             at(o).set_validated(buf);
             { NoWindow nw; extra = ",arg=" + hex(buf); }
         }
+        else if (op == "extract") {
+            // is >> s on a stream that rethrows (exceptions(badbit)): a failing allocation anywhere inside the extraction
+            // reaches the caller as std::bad_alloc and the target keeps its value
+            std::istringstream *is;
+            { NoWindow nw; Block<char> d = units<char>(f[2]); is = new std::istringstream(std::string(d.data(), d.size())); is->exceptions(std::ios_base::badbit); }
+            try { *is >> at(o); } catch (...) { { NoWindow nw; delete is; } throw; }
+            { NoWindow nw; delete is; }
+        }
         else if (op == "empty") { new (mem[o]) S(); live[o] = true; }
         else if (op == "copy") { new (mem[o]) S(at(idx(2))); live[o] = true; }
         else if (op == "mctor") { new (mem[o]) S(std::move(at(idx(2)))); live[o] = true; }
